@@ -141,13 +141,18 @@ static std::string check_c04(const KV &c) {
     uint64_t declared = tonum(c, "declared");
     Buf k(key), m(msg), cu(custom), o(outlen);
     std::string M = C04MODE[mode];
+    // the incremental entry points absorb the message in three generated pieces and squeeze in two
+    uint64_t pos = tonum(c, "pos");
+    size_t c1 = (size_t)(pos % (msg.size() + 1)), c2 = c1 + (size_t)((pos >> 12) % (msg.size() - c1 + 1)), oc = (size_t)((pos >> 24) % (outlen + 1));
     switch (mode) {
     case 0: {
         ascon_prf(o.nn(), outlen, m.p, m.n, k.p);
         if (o.bytes() != ref::prf(key, msg, outlen)) return "ascon_prf (out " + num(outlen) + ") differs from the ASCON-Prf reference";
         // incremental with a declared length that differs from what is squeezed
         ascon_prf_state_t s; Buf o2(outlen);
-        ascon_prf_fixed_init(&s, k.p, (size_t)declared); ascon_prf_absorb(&s, m.p, m.n); ascon_prf_squeeze(&s, o2.nn(), outlen); ascon_prf_free(&s);
+        ascon_prf_fixed_init(&s, k.p, (size_t)declared);
+        ascon_prf_absorb(&s, m.p, c1); ascon_prf_absorb(&s, m.p + c1, c2 - c1); ascon_prf_absorb(&s, m.p + c2, m.n - c2);
+        ascon_prf_squeeze(&s, o2.nn(), oc); ascon_prf_squeeze(&s, o2.nn() + oc, outlen - oc); ascon_prf_free(&s);
         if (o2.bytes() != ref::prf_generic(key, msg, declared, outlen)) return "ascon_prf_fixed_init(declared " + num(declared) + ") differs from reference";
         return ""; }
     case 1:
@@ -193,8 +198,8 @@ static std::string check_c04(const KV &c) {
         if (a) ascon_hmaca(t.p, k.p, k.n, m.p, m.n); else ascon_hmac(t.p, k.p, k.n, m.p, m.n);
         Bytes want = ref::hmac(a, key, msg);
         if (t.bytes() != want) return M + " (key " + num(key.size()) + " bytes, msg " + num(msg.size()) + ") differs from RFC 2104 over ASCON-HASH" + (a ? "A" : "");
-        if (a) { ascon_hmaca_state_t s; ascon_hmaca_init(&s, k.p, k.n); ascon_hmaca_update(&s, m.p, m.n); ascon_hmaca_finalize(&s, k.p, k.n, t2.p); ascon_hmaca_free(&s); }
-        else { ascon_hmac_state_t s; ascon_hmac_init(&s, k.p, k.n); ascon_hmac_update(&s, m.p, m.n); ascon_hmac_finalize(&s, k.p, k.n, t2.p); ascon_hmac_free(&s); }
+        if (a) { ascon_hmaca_state_t s; ascon_hmaca_init(&s, k.p, k.n); ascon_hmaca_update(&s, m.p, c1); ascon_hmaca_update(&s, m.p + c1, c2 - c1); ascon_hmaca_update(&s, m.p + c2, m.n - c2); ascon_hmaca_finalize(&s, k.p, k.n, t2.p); ascon_hmaca_free(&s); }
+        else { ascon_hmac_state_t s; ascon_hmac_init(&s, k.p, k.n); ascon_hmac_update(&s, m.p, c1); ascon_hmac_update(&s, m.p + c1, c2 - c1); ascon_hmac_update(&s, m.p + c2, m.n - c2); ascon_hmac_finalize(&s, k.p, k.n, t2.p); ascon_hmac_free(&s); }
         if (t2.bytes() != want) return M + " incremental (key " + num(key.size()) + ") differs from reference";
         return ""; }
     default: {
@@ -202,8 +207,8 @@ static std::string check_c04(const KV &c) {
         if (a) ascon_kmaca(k.p, k.n, m.p, m.n, cu.p, cu.n, o.nn(), outlen); else ascon_kmac(k.p, k.n, m.p, m.n, cu.p, cu.n, o.nn(), outlen);
         if (o.bytes() != ref::kmac(a, key, msg, custom, outlen, outlen)) return M + " one-shot (out " + num(outlen) + ", custom " + num(custom.size()) + ") differs from cXOF(\"KMAC\") reference";
         Buf o2(outlen);
-        if (a) { ascon_kmaca_state_t s; ascon_kmaca_init(&s, k.p, k.n, cu.p, cu.n, (size_t)declared); ascon_kmaca_absorb(&s, m.p, m.n); ascon_kmaca_squeeze(&s, o2.nn(), outlen); ascon_kmaca_free(&s); }
-        else { ascon_kmac_state_t s; ascon_kmac_init(&s, k.p, k.n, cu.p, cu.n, (size_t)declared); ascon_kmac_absorb(&s, m.p, m.n); ascon_kmac_squeeze(&s, o2.nn(), outlen); ascon_kmac_free(&s); }
+        if (a) { ascon_kmaca_state_t s; ascon_kmaca_init(&s, k.p, k.n, cu.p, cu.n, (size_t)declared); ascon_kmaca_absorb(&s, m.p, c1); ascon_kmaca_absorb(&s, m.p + c1, c2 - c1); ascon_kmaca_absorb(&s, m.p + c2, m.n - c2); ascon_kmaca_squeeze(&s, o2.nn(), oc); ascon_kmaca_squeeze(&s, o2.nn() + oc, outlen - oc); ascon_kmaca_free(&s); }
+        else { ascon_kmac_state_t s; ascon_kmac_init(&s, k.p, k.n, cu.p, cu.n, (size_t)declared); ascon_kmac_absorb(&s, m.p, c1); ascon_kmac_absorb(&s, m.p + c1, c2 - c1); ascon_kmac_absorb(&s, m.p + c2, m.n - c2); ascon_kmac_squeeze(&s, o2.nn(), oc); ascon_kmac_squeeze(&s, o2.nn() + oc, outlen - oc); ascon_kmac_free(&s); }
         if (o2.bytes() != ref::kmac(a, key, msg, custom, declared, outlen)) return M + " incremental (declared " + num(declared) + ", out " + num(outlen) + ") differs from reference";
         return ""; }
     }
